@@ -72,7 +72,13 @@ Wider than "one device, LSSPos 0, zero reply latency" (the property names none o
     confirmed services are judged when at most one device is in configuration state (CiA 305 requires
     that), against the answer that one device put on the bus;
   * "latency_ms"/"timeout_ms": the replies of the devices reach the master from another thread after a
-    real latency below RESPONSE_TIMEOUT (as behind any real interface) -> "latency/*".
+    real latency below RESPONSE_TIMEOUT (as behind any real interface) -> "latency/*";
+  * an op may carry "foreign": [{"at": k, "data": hex}]: after the k-th request of the call has been heard (and
+    where they have something to say answered) by all devices, a frame with ANOTHER command specifier than the
+    awaited answer's appears on 0x7E4 (a late answer to an earlier service, an answer meant for somebody else)
+    -> ".../foreign-frame-*".  Where the devices were silent it is the reply the master reads - a reply with
+    the wrong command specifier: no acknowledge of a fastscan probe, no confirmation of a selective switch,
+    LssError for inquire/configure/store; the oracles (a)(b)(d)(e) stay as they are.
 
 Changed against DESIGN.md: a "late reply" fault and the stale identify reply
 were added (they exercise the anchor state `responses`); the strictness about
@@ -118,7 +124,14 @@ RULE = ("case = one CiA 305 reference slave (128-bit identity, node-id, initial 
         "device put on the bus; (3) latency_ms/timeout_ms: the devices' replies reach the master from another "
         "thread after a real latency of 1..60 ms with RESPONSE_TIMEOUT = 250 ms (latency/*: commissioning "
         "through fast scan and selective switch, all inquire/configure/store services, error code / wrong cs "
-        "/ silence, answers of two devices).")
+        "/ silence, answers of two devices); (4) op field 'foreign': 1..3 frames on 0x7E4 with a cs other than the "
+        "awaited answer's (answers of other LSS services, raw cs 0..255), each appearing right after the k-th "
+        "request of the call was heard and answered by the devices: every k of a fast scan (134 positions) x "
+        "identities, after an inquiry that was given up, stale LSSPos, nobody present, every request of a "
+        "selective switch (match / one bit off / nobody), every confirmed service (behind the answer; instead of "
+        "it when the device is silent, late, in waiting state or absent), Hypothesis scans and histories (one "
+        "device and 2..3 devices); judged by the unchanged oracles, 'the reply' of a confirmed service being the "
+        "first frame that reached the master during the call.")
 ASSUMPTIONS = [
     "RESPONSE_TIMEOUT=0 with inline delivery: a reply is either already queued when the master starts "
     "waiting or will not come; canopen.lss.time.sleep is a no-op in the harness process",
@@ -137,6 +150,10 @@ ASSUMPTIONS = [
     "a selective switch that nobody answers may return False or raise LssError (the docstring says False, "
     "the property is silent)",
     "return values of send_identify_* are not judged (documented as not implemented); only their frames are",
+    "foreign frames (cs other than the awaited answer's) are generated only BEHIND the devices' own answers to "
+    "the same request, never overtaking them (which frame is 'the reply' when two arrive is not said by the "
+    "property), never with the awaited cs (the master could not tell it from an answer; counted as excluded if "
+    "a shrink produces one) and never together with a reply latency",
 ]
 BUDGET = {"quick": 150, "thorough": 360}
 
@@ -228,6 +245,30 @@ class Rig:
         self.net, self.port = self.hub.attach("master")
         self.lss = self.net.lss
         self.lss.RESPONSE_TIMEOUT = timeout
+        # frames on 0x7E4 that are no answer to the running request (op field "foreign"): the port hears a
+        # request of the master after every device has heard (and, inline, answered) it
+        self.plan = []
+        self.n_heard = 0
+        self.fired = []                   # (plan entry, a device answered that very request)
+        self.foreign = self.hub.port("foreign-frames", handler=self._after_request)
+
+    def _after_request(self, fr):
+        if fr.can_id != MASTER_ID or fr.src is not self.port:
+            return
+        k = self.n_heard
+        self.n_heard += 1
+        last = self.hub.log[-1]
+        answered = last.can_id == SLAVE_ID and last.src is not self.foreign
+        for ent in self.plan:
+            if ent["at"] == k:
+                self.fired.append((ent, answered))
+                self.hub.route(Frame(SLAVE_ID, bytes.fromhex(ent["data"]), src=self.foreign))
+
+    def arm(self, plan):
+        self.plan = list(plan or ())
+        self.n_heard = 0
+
+    foreign = None
 
     def add(self, spec):
         sl = RefLssSlave(spec["id"], spec.get("nid", UNCONFIGURED), spec.get("state", WAITING))
@@ -238,6 +279,9 @@ class Rig:
             sl.hub = self.delay
         self.slaves.append(sl)
         self.slave = sl
+        if self.foreign is not None:      # stays the last listener on the bus
+            self.hub.ports.remove(self.foreign)
+            self.hub.ports.append(self.foreign)
         return sl
 
     def settle(self):
@@ -321,16 +365,19 @@ def _step(L, rig, op, tag, D):
     for sl in rig.slaves:
         sl.fault = op.get("fault")
         sl.fault_used = False
+    rig.arm(op.get("foreign"))
     result, exc = None, None
     try:
         result = _call(L, lss, op)
     except Exception as e:  # judged below
         exc = e
     rig.settle()
+    rig.arm(None)
     for sl in rig.slaves:
         sl.fault = None
     # what the devices put on the bus during the call (with a latency: in answer to it)
-    delivered = [f.data for f in rig.hub.log[n_log:] if f.can_id == SLAVE_ID and f.src is not rig.port]
+    arrivals = [f for f in rig.hub.log[n_log:] if f.can_id == SLAVE_ID and f.src is not rig.port]
+    delivered = [f.data for f in arrivals if f.src is not rig.foreign]
     sent = rig.port.sent[n_sent:]
     reqs = mon.requests[n_req:]
 
@@ -444,9 +491,12 @@ def _step(L, rig, op, tag, D):
     if len(conf) > 1:
         return      # CiA 305: these services need exactly one device in configuration state
     cs = REQ_CS[k]
-    reply = delivered[0] if delivered else None
-    if reply is not None and not conf:
-        raise RuntimeError(f"harness: answer {reply.hex()} although no device is in configuration state")
+    # "the reply" = the first frame that reached the master on 0x7E4 during the call: the answer of the device
+    # in configuration state, or - when no device answered - a frame that belongs to something else (op field
+    # "foreign", never with this service's cs): a reply with the wrong command specifier
+    reply = arrivals[0].data if arrivals else None
+    if delivered and not conf:
+        raise RuntimeError(f"harness: answer {delivered[0].hex()} although no device is in configuration state")
     if reply is None:
         why = "silence"
     elif reply[0] != cs:
@@ -657,6 +707,11 @@ def run_case(case) -> Outcome:
                 rig.add({"id": op["id"], "pos": op.get("pos", 0)})
                 nontrivial = True
                 continue
+            if op.get("foreign"):
+                why = _foreign_out_of_domain(op, latency)
+                if why:
+                    return Outcome(excluded=why)
+                nontrivial = True
             tag = f"call {i} {_describe(op)} ({_describe_bus(rig)})"
             nontrivial = nontrivial or _nontrivial_op(s, op)
             _step(L, rig, op, tag, D)
@@ -688,7 +743,25 @@ def run_case(case) -> Outcome:
                  + ("/several-devices" if case.get("others") else ""))
     if latency is not None and not klass.startswith("latency/"):
         klass = "latency/" + klass
+    if any(op.get("foreign") for op in ops):
+        klass += ("/foreign-frame-at-unanswered-request" if any(not a for _, a in rig.fired) else
+                  "/foreign-frame-behind-answer" if rig.fired else "/foreign-frame-not-reached")
     return Outcome(nontrivial, klass, D)
+
+
+def _own_cs(op):
+    """The command specifier of the answer the call waits for (None: it waits for nothing)."""
+    k = op["op"]
+    return 0x4F if k == "fast_scan" else 0x44 if k == "selective" else REQ_CS.get(k)
+
+
+def _foreign_out_of_domain(op, latency):
+    if latency is not None:
+        return "foreign frame together with a reply latency (order of arrival not determined)"
+    for ent in op["foreign"]:
+        if bytes.fromhex(ent["data"])[0] == _own_cs(op) or len(ent["data"]) != 16:
+            return "foreign frame that carries the cs of the awaited answer (it IS an answer for the master)"
+    return None
 
 
 def _describe_bus(rig):
@@ -701,6 +774,8 @@ def _describe_bus(rig):
 
 def _describe(op):
     extra = {k: v for k, v in op.items() if k != "op"}
+    if "foreign" in extra:
+        extra["foreign"] = [f"{e['data']} after request {e['at']}" for e in extra["foreign"]]
     if "id" in extra:
         extra["id"] = _hexid(extra["id"])
     return f"{op['op']}{extra if extra else ''}"
@@ -894,6 +969,7 @@ def enum_cases(thorough):
     yield from listening_cases(thorough)
     yield from several_answers_cases()
     yield from latency_cases(thorough)
+    yield from foreign_cases(thorough)
     if thorough:
         for ident in pair_identities():
             yield {"slave": slave(ident), "ops": [{"op": "fast_scan"}]}
@@ -1022,6 +1098,82 @@ def latency_cases(thorough):
            "ops": [{"op": "identify", "args": rng}, {"op": "selective", "id": a}, {"op": "inq_node"},
                    {"op": "identify", "args": rng}, {"op": "inq_serial"}, {"op": "identify", "args": rng},
                    {"op": "cfg_node", "nid": 7}, {"op": "store"}]}
+
+
+# Frames a conformant LSS slave sends on 0x7E4 in answer to OTHER services than the one that is running (a
+# late answer to an earlier inquiry / configuration / selective switch / identify request), and raw ones
+FOREIGN_FRAMES = ["5eff000000000000", "5a22000000000000", "5defcdab00000000", "1100000000000000",
+                  "1301000000000000", "1700000000000000", "4400000000000000", "5000000000000000",
+                  "5e05000000000000", "17ff2a0000000000", "0000000000000000", "ffffffffffffffff",
+                  "4e00000000000000", "5100000000800000", "4f00000000000000", "cf4f4f4f4f4f4f4f"]
+SCAN_REQUESTS = 1 + 4 * 33       # the start probe, then per 32-bit part 32 bit probes and one confirmation
+
+
+def _foreign_for(op, n):
+    """n-th frame of FOREIGN_FRAMES that is no answer to `op`."""
+    while True:
+        data = FOREIGN_FRAMES[n % len(FOREIGN_FRAMES)]
+        if int(data[:2], 16) != _own_cs(op):
+            return data
+        n += 1
+
+
+def foreign_cases(thorough):
+    """(a)(b)(d)(e) ONE frame that is no answer to the running request (another cs) reaches the master on
+    0x7E4 while it waits: after request number `at` of the call has been heard (and, where a device has
+    something to say, answered) by every device.  Where the devices stay silent it is the reply the master
+    reads: for a fastscan probe 'not acknowledged', for selective switch 'not confirmed', for the confirmed
+    services 'a reply with the wrong command specifier'."""
+    conf = CONFIGURATION
+    scan = {"op": "fast_scan"}
+    idents = [BASE_ID, [0x80000001, 0x01020304, 0xFFFFFFFE, 0x7FFFFFFF]]
+    if thorough:
+        idents += [[0xDEADBEEF, 0, ALL1, 0x00010000], [ALL1] * 4, [0, 0, 0, 0], [1, 0, 0, 0],
+                   [0, 0, 0, 0x80000000], [0x55555555, 0xAAAAAAAA, 0x33333333, 0xCCCCCCCC]]
+    n = 0
+    for j, ident in enumerate(idents):
+        for at in range(SCAN_REQUESTS + 1):           # one position behind the last request: never reached
+            if j and not thorough and at % 3 != j:
+                continue
+            n += 1
+            yield {"slave": slave(ident), "ops": [dict(scan, foreign=[{"at": at, "data": _foreign_for(scan, n)}])]}
+    for m in range(len(FOREIGN_FRAMES)):              # every frame of the list, at a probe nobody answers
+        at = 1 + 33 + (31 - 17) if m % 2 else 1 + 2 * 33 + (31 - 10)      # BASE_ID: product bit 17, revision bit 10
+        yield {"slave": slave(), "ops": [dict(scan, foreign=[{"at": at, "data": _foreign_for(scan, m)}])]}
+        yield {"slave": slave([ALL1] * 4), "ops": [dict(scan, foreign=[{"at": 1 + (7 * m) % 32, "data": _foreign_for(scan, m)}])]}
+    # several of them in one scan; a stale LSSPos; the scan as entrance of the commissioning sequence
+    tail = [{"op": "inq_serial"}, {"op": "inq_node"}, {"op": "cfg_node", "nid": 17}, {"op": "store"}]
+    for j, ident in enumerate(idents):
+        several = [{"at": at, "data": _foreign_for(scan, at + j)} for at in range(2 + j, SCAN_REQUESTS, 29)]
+        yield {"slave": slave(ident), "klass": "commission/fast-scan", "ops": [dict(scan, foreign=several)] + tail}
+        yield {"slave": dict(slave(ident), pos=1 + j % 3), "ops": [dict(scan, foreign=several[1:4])]}
+    # nobody takes part: the frame is no "identify slave" either
+    for at in (0, 1, 5):
+        for s in (slave(present=False), slave(nid=5), slave(state=conf)):
+            n += 1
+            yield {"slave": s, "ops": [dict(scan, foreign=[{"at": at, "data": _foreign_for(scan, n)}])]}
+    # a late answer of the very device: inquiry given up, device switched back to waiting state, scan
+    for at in range(1, SCAN_REQUESTS, 1 if thorough else 7):
+        yield {"slave": slave(state=conf), "klass": "scan/after-inquiry-given-up",
+               "ops": [{"op": "inq_node", "fault": {"kind": "silent"}}, {"op": "global", "mode": 0},
+                       dict(scan, foreign=[{"at": at, "data": "5eff000000000000"}]), {"op": "inq_vendor"}]}
+    # (e) selective switch: only the fourth request is answered
+    for m in range(len(FOREIGN_FRAMES)):
+        for at in range(4):
+            good = {"op": "selective", "id": BASE_ID}
+            off = {"op": "selective", "id": _variant(BASE_ID, m % 4, m)}
+            yield {"slave": slave(), "ops": [dict(good, foreign=[{"at": at, "data": _foreign_for(good, m)}])]}
+            yield {"slave": slave(), "ops": [dict(off, foreign=[{"at": at, "data": _foreign_for(off, m)}])]}
+        yield {"slave": slave(present=False), "ops": [dict(good, foreign=[{"at": 3, "data": _foreign_for(good, m)}])]}
+    # (d) confirmed services: behind the device's answer; instead of it (device silent / in waiting state / absent)
+    for n, svc in enumerate(SERVICES):
+        for m in range(len(FOREIGN_FRAMES)):
+            op = svc_op(svc, n + m)
+            fr = [{"at": 0, "data": _foreign_for(op, m)}]
+            yield {"slave": slave(state=conf), "klass": f"{svc}/foreign-frame",
+                   "ops": [dict(op, foreign=fr), svc_op(svc, n + m + 1)]}
+            yield {"slave": slave(state=(WAITING, conf)[m % 2], present=bool(m % 3)),
+                   "ops": [dict(op, foreign=fr, **({"fault": {"kind": ("silent", "late")[m % 4 // 2]}} if m % 2 else {}))]}
 
 
 # Hypothesis ---------------------------------------------------------------------
@@ -1159,6 +1311,50 @@ def bus_history(draw):
     return {"slave": s, "others": others, "ops": ops}
 
 
+def _foreign_frames(draw, op):
+    own = _own_cs(op)
+    span = SCAN_REQUESTS + 2 if op["op"] == "fast_scan" else 5 if op["op"] == "selective" else \
+        7 if op["op"] == "identify" else 2
+    out = []
+    for _ in range(draw(st.sampled_from([1, 1, 1, 2, 3]))):
+        data = draw(st.one_of(st.sampled_from(FOREIGN_FRAMES),
+                              st.binary(min_size=8, max_size=8).map(bytes.hex),
+                              st.integers(0, 255).map(lambda c: bytes([c] + [0] * 7).hex())))
+        if int(data[:2], 16) == own:
+            data = f"{own ^ 0x10:02x}" + data[2:]
+        out.append({"at": draw(st.integers(0, span - 1)), "data": data})
+    return out
+
+
+@st.composite
+def random_scan_foreign(draw):
+    ident = draw(identities())
+    s = slave(ident)
+    c = draw(st.integers(0, 9))
+    if c == 0:
+        s = slave(ident, present=False)
+    elif c == 1:
+        s["pos"] = draw(st.integers(1, 3))
+    op = {"op": "fast_scan"}
+    op["foreign"] = _foreign_frames(draw, op)
+    return {"slave": s, "ops": [op]}
+
+
+@st.composite
+def history_foreign(draw):
+    """A history (one device, or a bus of 2..3) in which some calls see frames that are no answer to them."""
+    case = draw(st.one_of(history(), history(), bus_history()))
+    marked = 0
+    for op in case["ops"]:
+        if draw(st.integers(0, 2)) == 0:
+            op["foreign"] = _foreign_frames(draw, op)
+            marked += 1
+    if not marked:
+        op = case["ops"][draw(st.integers(0, len(case["ops"]) - 1))]
+        op["foreign"] = _foreign_frames(draw, op)
+    return case
+
+
 def search(ctx):
     thorough = ctx.tier == "thorough"
     ctx.enumerate(enum_cases(thorough),
@@ -1180,3 +1376,5 @@ def search(ctx):
     ctx.hypothesis(history(), 12000 if thorough else 2500, salt=3)
     ctx.hypothesis(random_scan_lsspos(), 1500 if thorough else 300, salt=4)
     ctx.hypothesis(bus_history(), 6000 if thorough else 1200, salt=5)
+    ctx.hypothesis(random_scan_foreign(), 3000 if thorough else 400, salt=6)
+    ctx.hypothesis(history_foreign(), 4000 if thorough else 500, salt=7)
